@@ -589,7 +589,7 @@ func (f *Frame) lookupOp(x *ssa.Lookup, st *State) Value {
 		has := u.mapHas(st.heap, m, t, k)
 		// nil map: lookup yields zero
 		has = mkAnd(mkNot(mkEq(m, intConst(0))), has)
-		v := u.mapGet(st.heap, CVal{T: m, Ty: x.X.Type()}, CVal{T: k})
+		v := u.mapGetRaw(st.heap, CVal{T: m, Ty: x.X.Type()}, CVal{T: k})
 		val := u.freshDef(x.Name(), mkIte(has, v.T, u.te.zero(t.Elem())))
 		u.assume(st.reach, mkImp(has, u.wf(val, t.Elem(), st.wm)))
 		if x.CommaOk {
